@@ -40,7 +40,7 @@ BUDGET = {"quick": 40.0, "thorough": 420.0}
 
 
 def shards(tier, seed):
-    mult = 1 if tier == "quick" else 12
+    mult = 1 if tier == "quick" else 90
     types = GR.ALL_TYPES
     return [{"types": types[i::16], "n_canon": 250 * mult, "n_rrsig": 200 * mult, "n_ds": 300 * mult, "n_nsec3": 200 * mult, "n_zone": 80 * mult,
              "max_iter": 150 if tier == "quick" else 2500} for i in range(16)]
